@@ -218,6 +218,54 @@ def instants_stage(ctx, rng, scratch, gconsts, sweeps, nsmall):
     return out_cov
 
 
+def blocksz_stage(ctx, rng, scratch, cdir, gconsts, n_random):
+    """the --blocksz argument: binary (exit status; `block size` line of --summary) vs Model/BlockszArg.v (B, vm_compute)
+    and vs an independent python reading of what the argument denotes + the permitted range (C)."""
+    import re, concurrent.futures
+    cov = dict(blocksz_args=0, blocksz_accepted=0, blocksz_rejected=0, blocksz_model_disagreements=0, blocksz_spec_differences=0)
+    args = G.blocksz_args(rng, gconsts, n_random)
+    path = os.path.join(scratch, "blocksz.log")
+    with open(path, "wb") as fh:
+        fh.write(b"2020-01-01T00:00:01 hello\n2020-01-01T00:00:02 hello\n")
+
+    def run1(a):
+        rc, o, e = vlib.run_s4(["--color", "never", "--summary", "--blocksz=" + a, path], timeout=60, env={"TZ": "UTC"})
+        m = re.search(rb"block size\s*:\s*(\d+) \(0x([0-9A-Fa-f]+)\)", e)
+        if rc == 0 and m and int(m.group(1)) == int(m.group(2), 16) and len(o) == 52:
+            return int(m.group(1))
+        if rc == 2 and b"invalid value" in e and o == b"":
+            return None
+        return ("odd", rc, e[-300:].decode("utf-8", "replace"))
+    with concurrent.futures.ThreadPoolExecutor(max_workers=max(2, vlib.NCPU // 2)) as ex:
+        impl = list(ex.map(run1, args))
+    res = vlib.coq_eval_shards(os.path.join(cdir, "blocksz"), [G.coq_blocksz(args)])
+    pairs = vlib.parse_eval_pairs(res[0][1]) if res[0][0] == 0 else None
+    if pairs is None or len(pairs) != len(args):
+        ctx.obligation_broken("correspondence", "model evaluation (--blocksz argument, coqc)", res[0][1])
+        pairs = []
+    lo, hi = max(gconsts["blocksz_min"], gconsts["sp_blocksz_min"]), gconsts["blocksz_max"]
+    for k, (a, r) in enumerate(zip(args, impl)):
+        cov["blocksz_args"] += 1
+        if isinstance(r, tuple):
+            ctx.failure(dict(blocksz_arg=a), "exit 0 with a `block size` summary line and the file printed, or exit 2 `invalid value` and nothing printed",
+                        "rc=%s %s" % (r[1], r[2]), [])
+            continue
+        cov["blocksz_accepted" if r is not None else "blocksz_rejected"] += 1
+        if pairs:
+            mv = None if pairs[k][1] == 0 else pairs[k][1] - 1
+            if mv != r:
+                cov["blocksz_model_disagreements"] += 1
+                ctx.obligation_broken("correspondence", "cli_process_blocksz (binary) vs Model.BlockszArg.process_blocksz",
+                                      json.dumps(dict(arg=a, binary=r, model=mv)))
+        d = G.blocksz_denotes(a, gconsts)
+        want = d if (d is not None and lo <= d <= hi) else None
+        if want != r:
+            cov["blocksz_spec_differences"] += 1
+            ctx.failure(dict(blocksz_arg=a), "denotes %s; permitted %d..%d -> %s" % (d, lo, hi, "block size %s" % want if want is not None else "rejected (exit 2)"),
+                        "block size %s" % r if r is not None else "rejected", [])
+    return cov
+
+
 def run(ctx):
     quick = ctx.quick()
     rng = ctx.rng
@@ -227,7 +275,7 @@ def run(ctx):
     if consts.get("SYSLOG_SZ_MAX") != U.SYSLOG_SZ_MAX or consts.get("BLOCKSZ_DEF") != U.BLOCKSZ_DEF:
         ctx.obligation_broken("translator", "constants used by the class predicates changed", json.dumps(consts))
     # ---- A
-    vlib.proof_stage(ctx, PROP_FILE, ["blocks", "datetime"], extra_targets=["Corr/C02.vo", "Props/C02.vo", "Corr/C12.vo"])
+    vlib.proof_stage(ctx, PROP_FILE, ["blocks", "datetime", "regexes"], extra_targets=["Corr/C02.vo", "Props/C02.vo", "Corr/C12.vo"])
     okh, logh = vlib.build_harness("c02")
     okg, logg = vlib.build_harness("c12")
     oks, logs = vlib.build_s4()
@@ -266,7 +314,7 @@ def run(ctx):
     # ---- B (gate model): process_stage1_blockzero_analysis vs Model/Gate.v at permitted sizes
     gs = U.Session()
     gidx = []
-    for k in range(90 if quick else 2500):
+    for k in range(60 if quick else 2500):
         hint = rng.choice([64, 64, 128, 16, 32])
         f, tab, lines = U.gen_file(rng, hint, nmsg=rng.choice([0, 1, 2, 3, 5]), wild=rng.random() < 0.5,
                                    maxlen=rng.choice([None, 40, 200]))
@@ -308,7 +356,7 @@ def run(ctx):
 
     t_stage["B single-oracle gate"] = round(time.time() - t0, 1); t0 = time.time()
     # ---- B (complete analysis): SyslogProcessor stage 0+1 and its counters vs Model/Gate.v gate2 as coded
-    g2 = gate2_stage(ctx, rng, scratch, cdir, gconsts, 90 if quick else 1500)
+    g2 = gate2_stage(ctx, rng, scratch, cdir, gconsts, 70 if quick else 1500)
 
     t_stage["B complete analysis"] = round(time.time() - t0, 1); t0 = time.time()
     # ---- C1: exhaustive small files, every block size, in-process
@@ -464,8 +512,10 @@ def run(ctx):
         if not failed_here and not ctx.failures:
             os.remove(path)
     t_stage["C2 binary"] = round(time.time() - t0, 1); t0 = time.time()
-    c3 = instants_stage(ctx, rng, scratch, gconsts, sweeps, 6 if quick else 60)
-    t_stage["C3 in-process instants"] = round(time.time() - t0, 1)
+    c3 = instants_stage(ctx, rng, scratch, gconsts, sweeps, 10 if quick else 60)
+    t_stage["C3 in-process instants"] = round(time.time() - t0, 1); t0 = time.time()
+    c4 = blocksz_stage(ctx, rng, scratch, cdir, gconsts, 40 if quick else 2000)
+    t_stage["C4 --blocksz argument"] = round(time.time() - t0, 1)
     for fi, bs, row in plan:
         if bs != REF_BS:
             nontrivial.add((bs, all_small[fi]))
@@ -489,10 +539,10 @@ def run(ctx):
         gate2_class_histogram=g2["classes"], gate2_mixed_cases=g2["mixed"], gate2_second_pass_cases=g2["second_pass"],
         gate2_ezcheck_matches_checked=g2["ez_checked"], gate2_notations=[nf.__name__ for nf in G.NOTATIONS],
         binary_runs=bin_runs, binary_files=len(files), binary_differences=bin_diff, binary_variants=[v for v, _ in VARIANTS],
-        binary_instant_lines_compared=instants_lines, edge_sweep_files=len(sweeps), **c3, stage_seconds=t_stage)
+        binary_instant_lines_compared=instants_lines, edge_sweep_files=len(sweeps), **c3, **c4, stage_seconds=t_stage)
     ctx.assumptions += [
         "`dated` oracle and unmodelled caches as for C02",
-        "block-zero acceptance: per-row / per-slice match oracle (the regex engine); the EZCHECK theorems assume that a match of a row with a four-digit year contains '1' or '2' and a match of a row with a two-digit field contains two consecutive digits (validated on every observed match of the run); check_store of find_sysline_in_block is not modelled (it always misses in the call sequence of the analysis)",
+        "block-zero acceptance: per-row / per-slice match oracle (the regex engine); the two EZCHECK hypotheses ('1' or '2' in a match of a four-digit-year row, two adjacent digits in a match of a has_d2 row) are PROVED for the regex model of C04 on all 173 regenerated ASTs (ezcheck_rows_discharged) and additionally validated on every observed match of the real engine; check_store of find_sysline_in_block is not modelled (it always misses in the call sequence of the analysis)",
         "the four block-size dependent classes of the acceptance analysis are the known findings F3a, F3b, F3c, F3d (class predicates: gate_util.class_names = Model/GateSpec.v, cross-checked on every B case)",
         "block sizes above |f|+2 behave as one block (the file is a single short block): sampled at 0x10000 in-process and up to 0xFFFFFF on the binary",
     ]
@@ -506,6 +556,14 @@ def replay(ctx, path):
     rc_all = 0
     for fl in r.get("failures", []):
         c = fl["case"]
+        if "blocksz_arg" in c:
+            p = os.path.join(scratch, "blocksz.log")
+            open(p, "wb").write(b"2020-01-01T00:00:01 hello\n2020-01-01T00:00:02 hello\n")
+            rc, o, e = vlib.run_s4(["--color", "never", "--summary", "--blocksz=" + c["blocksz_arg"], p], timeout=60, env={"TZ": "UTC"})
+            bl = [l for l in e.decode("utf-8", "replace").splitlines() if "block size" in l or "invalid value" in l]
+            print("replay --blocksz=%r: rc=%s %s ; expected: %s" % (c["blocksz_arg"], rc, bl[:1], fl.get("expected")))
+            rc_all = 1
+            continue
         if c.get("note") == "EZCHECK hypothesis":
             gs = G.GSession(); gs.add("M\t" + c["line_hex"])
             out, err = gs.run(scratch)
